@@ -22,9 +22,18 @@
 //!                              `parse_global_utils`: undefined `matches` and same-node cycles (also
 //!                              through the rule's own local utilities) are rejected, references to
 //!                              other globals and recursion through relations are accepted
+//! * `globals_load` (emitted by `c12_accept`): sets of global utility documents through the real
+//!   `parse_global_utils` (role `util` of the API child), compared with the Lean model
+//!   `Loader.loadGlobals` (class + error kind): the 22 fixed sets of `c12_globals` and generated
+//!   sets of 1–4 documents (rules with local utilities, references between the globals, sections
+//!   that exercise the variable checks) with one perturbation in half of them (undefined reference
+//!   in the rule / a local utility / a constraint / a fix expansion, a global requiring itself
+//!   through its own decorated local utilities, mutual and self reference, a cycle among local
+//!   utilities, an undefined fix variable); oracle `c12_globals_generated`: a reference written
+//!   from the utility-rule documentation on the JSON documents
 use super::procpool::{self};
 use super::yaml::{api_job, SrcPool};
-use super::yaml_gen::{doc_facts, fix_facts, CYCLE_OPS};
+use super::yaml_gen::{core_facts, doc_facts, expando_of, fix_facts, CYCLE_OPS};
 use super::Ctx;
 use crate::util::*;
 use ast_grep_language::SupportLang;
@@ -836,6 +845,7 @@ pub fn c12_accept(ctx: &Ctx, rng: &mut Rng, o: &mut Out) {
   o.oracle("c12-perturbation-rejected", true, json!({"cases": cases.len(), "failures": f_pert}));
   o.oracle("c12-fix-substitutes", true, json!({"cases": n_subst, "failures": f_subst}));
   c12_globals(o);
+  c12_globals_generated(ctx, rng, o);
 }
 
 /// `c12_globals`: global utility rules (the files of `utilDirs`) are self-consistent as a SET.
@@ -891,6 +901,9 @@ fn c12_globals(o: &mut Out) {
   let answers = procpool::run_jobs(&jobs, procpool::nproc());
   let mut failures = 0usize;
   for ((name, docs, want), ans) in cases.iter().zip(answers.iter()) {
+    // correspondence: the same set through the Lean model of `parse_global_utils`
+    let parsed: Vec<Value> = docs.iter().filter_map(|d| serde_json::from_str(d).ok()).collect();
+    emit_globals_load(o, &parsed, ans, &format!("fixed:{name}"));
     let load = ans.detail["load"].as_str().unwrap_or("?");
     let v = ans.detail["v"].as_str().unwrap_or("");
     let got = if ans.class.crashed() {
@@ -911,6 +924,464 @@ fn c12_globals(o: &mut Out) {
   o.oracle("c12_globals", true, json!({"cases": cases.len(), "failures": failures}));
 }
 
-pub fn exec(_op: &str, _a: &Value) -> Option<Value> {
+// ---------------------------------------------------------------------------------------
+// `globals_load`: sets of global utility documents, real `parse_global_utils` vs `Loader.loadGlobals`
+// ---------------------------------------------------------------------------------------
+
+/// the facts of a set of global utility documents (`core` as in a document of `yaml_load`)
+fn globals_facts(docs: &[Value]) -> Option<Value> {
+  let mut out = vec![];
+  for d in docs {
+    let o = d.as_object()?;
+    let core = core_facts(o, LANG).ok()?;
+    out.push(json!({"id": o.get("id")?.as_str()?, "core": core, "expando": expando_of(LANG).to_string()}));
+  }
+  Some(json!(out))
+}
+
+/// role `util` of the API child: the documents before the last one are registered as `g`, the last
+/// one is the utility file `y`: all of them go through ONE call of `parse_global_utils`
+fn globals_job(docs: &[Value]) -> Value {
+  let texts: Vec<String> = docs.iter().map(|d| d.to_string()).collect();
+  let (last, before) = texts.split_last().unwrap();
+  json!({"k": "api", "role": "util", "y": last, "g": before, "src": [["JavaScript", "foo(1, [2, 'a'], b);\nlet c = 3;\n"]]})
+}
+
+fn globals_result(ans: &procpool::Answer) -> Value {
+  let load = ans.detail["load"].as_str().unwrap_or("?");
+  let v = ans.detail["v"].as_str().unwrap_or("");
+  match load {
+    "ok" => json!({"c": "ok", "v": ""}),
+    "err" => json!({"c": "err", "v": v}),
+    other => json!({"c": other, "v": ""}),
+  }
+}
+
+fn emit_globals_load(o: &mut Out, docs: &[Value], ans: &procpool::Answer, tag: &str) {
+  if let Some(facts) = globals_facts(docs) {
+    o.op("globals_load", json!({"globals": facts, "cmpv": true, "docs": docs, "tag": tag}), globals_result(ans));
+  } else {
+    eprintln!("globals_load: document outside the structured class: {}", json!(docs));
+  }
+}
+
+const G_SAME: [&str; 5] = ["matches", "all", "any", "not", "ofRule"];
+const G_REL: [&str; 6] = ["inside", "has", "precedes", "follows", "stopBy", "stopByHas"];
+/// relations that move UP the tree only: recursion through them always terminates (recursion
+/// through relations of opposite directions is accepted by the loader and diverges in the scan:
+/// C11's known finding, not this unit's subject)
+const G_UP: [&str; 2] = ["inside", "stopBy"];
+
+/// add the operator keys of `extra` to the rule object `obj`: as sibling keys where they are free,
+/// else `obj` becomes `all: [obj, extra]`
+fn merge_into(obj: &mut Value, extra: Value) {
+  let clash = extra.as_object().map(|e| e.keys().any(|k| obj.get(k).is_some())).unwrap_or(true);
+  if clash {
+    let old = obj.take();
+    *obj = json!({"all": [old, extra]});
+  } else {
+    for (k, v) in extra.as_object().unwrap() {
+      obj[k.as_str()] = v.clone();
+    }
+  }
+}
+
+struct GSet {
+  docs: Vec<Value>,
+  tag: String,
+  /// expected error kind when it does not follow from the references (variable faults)
+  expect_var: Option<&'static str>,
+}
+
+fn utils_of(d: &mut Value) -> &mut Value {
+  if d.get("utils").is_none() {
+    d["utils"] = json!({});
+  }
+  &mut d["utils"]
+}
+
+/// one set of 1–4 global utility documents `g0..`; references between globals go from a higher to
+/// a lower index (no cycle), recursion into the rule itself goes through an upward relation, a
+/// reference to a higher index names a rule without references (so that the scan of an unperturbed
+/// set terminates); `which` odd = exactly one perturbation
+fn gen_global_set(rng: &mut Rng, which: usize) -> GSet {
+  let perturb = which % 2 == 1;
+  let kind = (which / 2) % 7;
+  let mut n = 1 + rng.below(4);
+  if perturb && kind == 2 {
+    n = n.max(2);
+  }
+  let ids: Vec<String> = (0..n).map(|k| format!("g{k}")).collect();
+  let mut docs: Vec<Value> = vec![];
+  for k in 0..n {
+    let shape = rng.below(5);
+    let mut rule = match shape {
+      0 => json!({"kind": "number"}),
+      1 => json!({"pattern": "foo($A, $B)"}),
+      2 => json!({"any": [{"kind": "identifier"}, {"kind": "number"}]}),
+      3 => json!({"kind": "identifier", "regex": "^a"}),
+      _ => json!({"pattern": "$A", "inside": {"kind": "expression_statement", "stopBy": "end"}}),
+    };
+    let has_a = shape == 1 || shape == 4;
+    let mut d = json!({"id": ids[k], "language": "JavaScript"});
+    // local utilities, used by the rule on the same node
+    if rng.chance(1, 2) {
+      utils_of(&mut d)["u0"] = json!({"kind": "string"});
+      merge_into(&mut rule, wrap_ref(*rng.pick(&G_SAME), "u0"));
+    }
+    if k > 0 && rng.chance(1, 2) {
+      // a local utility requires an earlier global rule on the same node (or refers to it elsewhere)
+      let t = ids[rng.below(k)].clone();
+      let mut u = wrap_ref(*rng.pick(&CYCLE_OPS), &t);
+      if rng.chance(1, 2) {
+        u["kind"] = json!("identifier");
+      }
+      utils_of(&mut d)["u1"] = u;
+      merge_into(&mut rule, wrap_ref(*rng.pick(&G_SAME), "u1"));
+    }
+    if rng.chance(1, 3) {
+      // recursion through a relation: into an earlier global rule or the rule itself
+      let t = ids[rng.below(k + 1)].clone();
+      utils_of(&mut d)["u2"] = wrap_ref(*rng.pick(&G_UP), &t);
+      merge_into(&mut rule, wrap_ref(*rng.pick(&G_SAME), "u2"));
+    }
+    if k > 0 && rng.chance(1, 6) {
+      // a local utility named like a global rule shadows it
+      utils_of(&mut d)[ids[0].as_str()] = json!({"kind": "string"});
+      merge_into(&mut rule, wrap_ref(*rng.pick(&G_SAME), &ids[0]));
+    }
+    // direct references to other global rules
+    if k > 0 && rng.chance(1, 2) {
+      let t = ids[rng.below(k)].clone();
+      merge_into(&mut rule, wrap_ref(*rng.pick(&G_SAME), &t));
+    }
+    if rng.chance(1, 3) {
+      let t = ids[rng.below(k + 1)].clone();
+      merge_into(&mut rule, wrap_ref(*rng.pick(&G_UP), &t));
+    }
+    // sections that exercise the variable checks (`CheckHint::Global` runs them)
+    if has_a {
+      if rng.chance(1, 2) {
+        let mut c = json!({"regex": "^a"});
+        if k > 0 && rng.chance(1, 2) {
+          // a constraint is evaluated on the captured node
+          let t = ids[rng.below(k)].clone();
+          c = wrap_ref(*rng.pick(&CYCLE_OPS), &t);
+          c["kind"] = json!("identifier");
+        }
+        d["constraints"] = json!({"A": c});
+      }
+      if rng.chance(1, 2) {
+        d["transform"] = json!({"T": {"substring": {"source": "$A", "startChar": 1}}});
+        d["fix"] = if rng.chance(1, 2) { json!("bar($T, $A)") } else { json!({"template": "bar($A, $T)", "expandEnd": {"regex": ","}}) };
+      } else if k > 0 && rng.chance(1, 2) {
+        let t = ids[rng.below(k)].clone();
+        let mut x = wrap_ref(*rng.pick(&CYCLE_OPS), &t);
+        x["regex"] = json!(",");
+        d["fix"] = json!({"template": "bar($A)", "expandStart": x});
+      }
+    }
+    d["rule"] = rule;
+    docs.push(d);
+  }
+  // references to a LATER global rule (not registered yet when this one is built): through any
+  // relation, to a rule that has no references of its own
+  for k in 0..n {
+    let plain: Vec<usize> = (k + 1..n).filter(|j| !docs[*j].to_string().contains("\"matches\"")).collect();
+    if !plain.is_empty() && rng.chance(1, 2) {
+      let t = ids[*rng.pick(&plain)].clone();
+      let mut rule = docs[k]["rule"].take();
+      if rng.chance(1, 2) {
+        utils_of(&mut docs[k])["u3"] = wrap_ref(*rng.pick(&G_REL), &t);
+        merge_into(&mut rule, wrap_ref(*rng.pick(&G_SAME), "u3"));
+      } else {
+        merge_into(&mut rule, wrap_ref(*rng.pick(&G_REL), &t));
+      }
+      docs[k]["rule"] = rule;
+    }
+  }
+  let mut tag = "none".to_string();
+  let mut expect_var = None;
+  if perturb {
+    let k = rng.below(n);
+    let own = ids[k].clone();
+    match kind {
+      0 => {
+        // a reference that resolves nowhere
+        let op = *rng.pick(&CYCLE_OPS);
+        let place = rng.below(4);
+        let d = &mut docs[k];
+        let has_a = d["rule"].to_string().contains("$A");
+        match place {
+          0 => {
+            let mut x = wrap_ref(op, "nope");
+            x["kind"] = json!("identifier");
+            utils_of(d)["ux"] = x;
+            tag = format!("undef_in_util:{op}");
+          }
+          1 if has_a => {
+            let mut x = wrap_ref(op, "nope");
+            x["kind"] = json!("identifier");
+            d["constraints"] = json!({"A": x});
+            tag = format!("undef_in_constraint:{op}");
+          }
+          2 => {
+            let mut x = wrap_ref(op, "nope");
+            x["regex"] = json!(",");
+            d.as_object_mut().unwrap().remove("transform");
+            d["fix"] = json!({"template": "x", "expandEnd": x});
+            tag = format!("undef_in_expansion:{op}");
+          }
+          _ => {
+            let mut rule = d["rule"].take();
+            merge_into(&mut rule, wrap_ref(op, "nope"));
+            d["rule"] = rule;
+            tag = format!("undef_in_rule:{op}");
+          }
+        }
+      }
+      1 => {
+        // the global rule requires itself through its own local utilities (decorated, chained)
+        let op = *rng.pick(&CYCLE_OPS);
+        let d = &mut docs[k];
+        let mut utils = d.get("utils").cloned().unwrap_or(json!({}));
+        if rng.chance(1, 3) {
+          let op2 = *rng.pick(&CYCLE_OPS);
+          let mut c0 = wrap_ref(op, "cy2");
+          let mut c1 = wrap_ref(op2, &own);
+          decorate(&mut c0, op, rng, &mut utils);
+          decorate(&mut c1, op2, rng, &mut utils);
+          utils["cy"] = c0;
+          utils["cy2"] = c1;
+          tag = format!("own_cycle_chain:{op}+{op2}");
+        } else {
+          let mut c0 = wrap_ref(op, &own);
+          decorate(&mut c0, op, rng, &mut utils);
+          utils["cy"] = c0;
+          tag = format!("own_cycle:{op}");
+        }
+        d["utils"] = utils;
+        let mut rule = d["rule"].take();
+        merge_into(&mut rule, wrap_ref(*rng.pick(&G_SAME), "cy"));
+        d["rule"] = rule;
+      }
+      2 => {
+        // two global rules refer to each other, one of them possibly through a local utility
+        let mut j = rng.below(n);
+        if j == k {
+          j = (k + 1) % n;
+        }
+        let other = ids[j].clone();
+        let (op1, op2) = (*rng.pick(&CYCLE_OPS), *rng.pick(&CYCLE_OPS));
+        let mut rule = docs[k]["rule"].take();
+        merge_into(&mut rule, wrap_ref(op1, &other));
+        docs[k]["rule"] = rule;
+        let through_local = rng.chance(1, 2);
+        let mut rule = docs[j]["rule"].take();
+        if through_local {
+          utils_of(&mut docs[j])["mu"] = wrap_ref(op2, &own);
+          merge_into(&mut rule, wrap_ref(*rng.pick(&G_SAME), "mu"));
+        } else {
+          merge_into(&mut rule, wrap_ref(op2, &own));
+        }
+        docs[j]["rule"] = rule;
+        tag = format!("mutual{}:{op1}+{op2}", if through_local { "_local" } else { "" });
+      }
+      3 => {
+        let op = *rng.pick(&CYCLE_OPS);
+        let mut rule = docs[k]["rule"].take();
+        merge_into(&mut rule, wrap_ref(op, &own));
+        docs[k]["rule"] = rule;
+        tag = format!("self:{op}");
+      }
+      4 => {
+        // a cycle among the local utilities only
+        let (op1, op2) = (*rng.pick(&CYCLE_OPS), *rng.pick(&CYCLE_OPS));
+        let d = &mut docs[k];
+        let mut utils = d.get("utils").cloned().unwrap_or(json!({}));
+        let mut c0 = wrap_ref(op1, "lc1");
+        let mut c1 = wrap_ref(op2, "lc0");
+        decorate(&mut c0, op1, rng, &mut utils);
+        decorate(&mut c1, op2, rng, &mut utils);
+        utils["lc0"] = c0;
+        utils["lc1"] = c1;
+        d["utils"] = utils;
+        if rng.chance(1, 2) {
+          let mut rule = d["rule"].take();
+          merge_into(&mut rule, wrap_ref(*rng.pick(&G_SAME), "lc0"));
+          d["rule"] = rule;
+        }
+        tag = format!("local_cycle:{op1}+{op2}");
+      }
+      5 => {
+        docs[k]["fix"] = json!("bar($NOPE)");
+        expect_var = Some("UndefinedMetaVar.fix");
+        tag = "undef_fix_var".into();
+      }
+      _ => {
+        // renamed reference: the target of one existing reference to a global rule
+        let text = docs[k].to_string();
+        let hit = ids.iter().find(|g| text.contains(&format!("\"matches\":\"{g}\"")));
+        if let Some(g) = hit {
+          let is_local = docs[k].get("utils").map(|u| u.get(g.as_str()).is_some()).unwrap_or(false);
+          if !is_local {
+            let renamed = text.replacen(&format!("\"matches\":\"{g}\""), "\"matches\":\"nope\"", 1);
+            docs[k] = serde_json::from_str(&renamed).unwrap();
+            tag = "rename_ref".into();
+          }
+        }
+      }
+    }
+  }
+  // the order of the files does not matter
+  for i in (1..docs.len()).rev() {
+    let j = rng.below(i + 1);
+    docs.swap(i, j);
+  }
+  GSet { docs, tag, expect_var }
+}
+
+/// the reference: the first inconsistency of a SET of global utility documents as the utility-rule
+/// documentation describes them (`None` = consistent), as the suffix of the demanded error kind.
+/// A `matches` names a local utility of the same file first, else a global rule of the set.
+fn globals_inconsistency(docs: &[Value]) -> Option<&'static str> {
+  let empty = Map::new();
+  let ids: BTreeSet<String> = docs.iter().filter_map(|d| d["id"].as_str().map(|s| s.to_string())).collect();
+  for d in docs {
+    let utils = d.get("utils").and_then(|u| u.as_object()).unwrap_or(&empty);
+    let mut refs = vec![];
+    matches_refs(&d["rule"], &mut refs);
+    for sec in ["constraints", "utils", "fix"] {
+      if let Some(x) = d.get(sec) {
+        matches_refs(x, &mut refs);
+      }
+    }
+    if refs.iter().any(|r| !utils.contains_key(r) && !ids.contains(r)) {
+      return Some("MatchesReference.UndefinedUtil");
+    }
+  }
+  // no local utility requires itself on the same node
+  for d in docs {
+    let utils = d.get("utils").and_then(|u| u.as_object()).unwrap_or(&empty);
+    for start in utils.keys() {
+      let mut seen = BTreeSet::new();
+      let mut stack = vec![start.clone()];
+      while let Some(x) = stack.pop() {
+        let mut out = vec![];
+        same_node_refs(&utils[&x], &mut out);
+        for t in out {
+          if !utils.contains_key(&t) {
+            continue;
+          }
+          if &t == start {
+            return Some("Utils.MatchesReference.CyclicRule");
+          }
+          if seen.insert(t.clone()) {
+            stack.push(t);
+          }
+        }
+      }
+    }
+  }
+  // no global rule requires itself on the same node: directly, through other global rules,
+  // through its own local utilities
+  let mut edges: BTreeMap<String, BTreeSet<String>> = BTreeMap::new();
+  for d in docs {
+    let utils = d.get("utils").and_then(|u| u.as_object()).unwrap_or(&empty);
+    let mut out = BTreeSet::new();
+    let mut seen: BTreeSet<String> = BTreeSet::new();
+    let mut stack: Vec<&Value> = vec![&d["rule"]];
+    while let Some(r) = stack.pop() {
+      let mut refs = vec![];
+      same_node_refs(r, &mut refs);
+      for t in refs {
+        match utils.get(&t) {
+          Some(body) => {
+            if seen.insert(t.clone()) {
+              stack.push(body);
+            }
+          }
+          None => {
+            out.insert(t);
+          }
+        }
+      }
+    }
+    edges.insert(d["id"].as_str().unwrap_or("").to_string(), out);
+  }
+  for start in edges.keys() {
+    let mut seen = BTreeSet::new();
+    let mut stack = vec![start.clone()];
+    while let Some(x) = stack.pop() {
+      for t in edges.get(&x).into_iter().flatten() {
+        if t == start {
+          return Some("Rule.MatchesReference.CyclicRule");
+        }
+        if seen.insert(t.clone()) {
+          stack.push(t.clone());
+        }
+      }
+    }
+  }
   None
+}
+
+/// generated sets of global utility documents: op `globals_load` + oracle `c12_globals_generated`
+fn c12_globals_generated(ctx: &Ctx, rng: &mut Rng, o: &mut Out) {
+  let n = if ctx.thorough { 3000 } else { 150 };
+  let sets: Vec<GSet> = (0..n).map(|i| gen_global_set(rng, i)).collect();
+  let jobs: Vec<Value> = sets.iter().map(|s| globals_job(&s.docs)).collect();
+  let answers = procpool::run_jobs(&jobs, procpool::nproc());
+  let (mut failures, mut no_verdict) = (0usize, 0usize);
+  let mut tally: BTreeMap<String, usize> = BTreeMap::new();
+  for (s, ans) in sets.iter().zip(answers.iter()) {
+    emit_globals_load(o, &s.docs, ans, &s.tag);
+    let load = ans.detail["load"].as_str().unwrap_or("?");
+    let v = ans.detail["v"].as_str().unwrap_or("");
+    let got = if ans.class.crashed() {
+      format!("crashed ({})", ans.class.name())
+    } else if load == "ok" {
+      "accepted".to_string()
+    } else {
+      format!("rejected {v}")
+    };
+    let kind = s.tag.split(':').next().unwrap_or("");
+    *tally.entry(format!("{kind}/{}", if load == "err" { v } else { load })).or_default() += 1;
+    let want = s.expect_var.or_else(|| globals_inconsistency(&s.docs));
+    if ans.class.crashed() && load == "ok" {
+      // the set was loaded; the crash happened in the scan that follows: recursion through
+      // relations of opposite directions (a perturbation may build it) is C11's known finding —
+      // no verdict here
+      no_verdict += 1;
+      if want.is_some() {
+        failures += 1;
+        o.oracle("c12_globals_generated", false, json!({"fp": format!("c12 generated global utilities, perturbation {kind}: demanded [rejected]"), "got": "accepted", "tag": s.tag, "globals": s.docs}));
+      }
+      continue;
+    }
+    let ok = !ans.class.crashed()
+      && match want {
+        None => load == "ok",
+        Some(w) => load == "err" && v.starts_with("Global.") && v.ends_with(w),
+      };
+    if !ok {
+      failures += 1;
+      let demanded = want.map(|w| format!("rejected ..{w}")).unwrap_or_else(|| "accepted".into());
+      o.oracle("c12_globals_generated", false, json!({"fp": format!("c12 generated global utilities, perturbation {kind}: demanded [{demanded}]"), "got": got, "tag": s.tag, "globals": s.docs}));
+    }
+  }
+  o.oracle("c12_globals_generated", true, json!({"cases": sets.len(), "failures": failures, "no_verdict_scan_crashed": no_verdict, "tally": tally}));
+}
+
+/// replay of `globals_load`: the recorded documents through the real `parse_global_utils`
+pub fn exec(op: &str, a: &Value) -> Option<Value> {
+  if op != "globals_load" && op != "globals_load_prefix" {
+    return None;
+  }
+  let docs = a["docs"].as_array()?.clone();
+  if docs.is_empty() {
+    return None;
+  }
+  let ans = procpool::run_jobs(&[globals_job(&docs)], 1).pop()?;
+  Some(globals_result(&ans))
 }
